@@ -317,6 +317,52 @@ class AbstractExcelInPython(ABC):
 
         return last_valid_value
 
+    def _criterion(self, criterion: Any) -> Callable:
+        # The test a criterion of SUMIF, SUMIFS, COUNTIFS or AVERAGEIFS stands for: a value (cells equal to it) or a text
+        # that starts with a comparison operator (">5", "<>x", "=3"); a text operand may hold the wildcards ? and *
+        # (~ before one of them makes it literal) and is compared with the whole cell, upper and lower case are the same
+        operator, operand = '=', criterion
+        if isinstance(criterion, str):
+            operator, operand = re.match('(>=|<=|<>|>|<|=)?(.*)', criterion, re.S).groups()
+            operator = operator or '='
+            if re.fullmatch('[-+]?([0-9]+[.]?[0-9]*|[.][0-9]+)(e[-+]?[0-9]+)?', operand, re.I):
+                operand = float(operand)
+        elif isinstance(criterion, self.EmptyCell):
+            # a criterion that refers to an empty cell stands for 0
+            operand = 0
+
+        python_operator = '==' if operator in ('=', '<>') else operator
+        date = None
+        if isinstance(operand, datetime.datetime) or isinstance(operand, str) and not re.search('[?*]', operand):
+            date = self._parse_date_obj(operand)
+
+        if date:
+            def accepts(value):
+                value = self._parse_date_obj(value) if isinstance(value, (str, datetime.datetime)) else None
+                return value is not None and self._by_operator(python_operator, value, date)
+        elif isinstance(operand, bool):
+            def accepts(value):
+                return isinstance(value, bool) and self._by_operator(python_operator, value, operand)
+        elif type(operand) in (int, float):
+            def accepts(value):
+                # only numbers are compared with a number: a text or a blank cell is neither greater nor smaller
+                return type(value) in (int, float) and self._by_operator(python_operator, value, operand)
+        elif python_operator == '==':
+            pattern = re.compile(''.join('.' if item == '?' else '.*' if item == '*' else re.escape(item[-1])
+                                         for item in re.findall('~[?*~]|.', str(operand), re.S)), re.I | re.S)
+
+            def accepts(value):
+                return isinstance(value, str) and pattern.fullmatch(value) is not None
+        else:
+            def accepts(value):
+                return isinstance(value, str) and self._by_operator(python_operator, value.lower(), str(operand).lower())
+
+        if operator == '<>':
+            # everything that the equality does not select, cells of another kind and blank cells included
+            return lambda value: not accepts(value)
+
+        return accepts
+
     def _sum_if(self, range_: List, criteria: Callable, sum_range: List = None):
         result = 0
         range_, sum_range = self._flatten_list(range_), self._flatten_list(sum_range)
